@@ -845,7 +845,7 @@ func (k *chk15) checkNumber(r *fw.Rand, t target, pt, key string, v decimal.Deci
 	}
 	// the empty value: = and != with it are presence tests; where the parser also takes the ordering operators with it, all six
 	// have to be consistent like with any other value
-	xs = append(xs, qv{`""`, "empty"})
+	xs = append(xs, qv{"", "empty"})
 	for _, q := range xs {
 		x := q.x
 		o, ok := k.sixWay(t, prop, x)
